@@ -68,3 +68,18 @@ func VerifSnapshot(bm *BucketManager) map[string]int {
 	}
 	return m
 }
+
+// VerifGrantAll ends an observation: it hands the bucket registered for host enough tokens for
+// every caller still polling it, so that the driver's goroutines terminate.  Nothing is measured
+// after this call.
+func VerifGrantAll(bm *BucketManager, host string) {
+	bm.mu.Lock()
+	mb := bm.buckets[host]
+	bm.mu.Unlock()
+	if mb == nil {
+		return
+	}
+	mb.bucket.mu.Lock()
+	mb.bucket.capacity, mb.bucket.tokens = 1e9, 1e9
+	mb.bucket.mu.Unlock()
+}
